@@ -1,0 +1,47 @@
+//go:build verif
+
+// Hooks for the verification harness in /verif: thin exported wrappers
+// around the unexported ordered field maps and their hand-rolled CBOR map
+// header reader / writer.  Compiled only with -tags verif.
+package encoding
+
+import (
+	"encoding/json"
+
+	cbor "github.com/fxamacker/cbor/v2"
+)
+
+// VerifFieldsCBOR wraps structFieldsCBOR.
+type VerifFieldsCBOR struct{ f *structFieldsCBOR }
+
+func VerifNewFieldsCBOR() *VerifFieldsCBOR { return &VerifFieldsCBOR{newStructFieldsCBOR()} }
+
+func (v *VerifFieldsCBOR) Add(key int, val []byte) error { return v.f.Add(key, cbor.RawMessage(val)) }
+func (v *VerifFieldsCBOR) Has(key int) bool              { return v.f.Has(key) }
+func (v *VerifFieldsCBOR) Get(key int) ([]byte, bool)    { r, ok := v.f.Get(key); return []byte(r), ok }
+func (v *VerifFieldsCBOR) Delete(key int)                { v.f.Delete(key) }
+func (v *VerifFieldsCBOR) Keys() []int                   { return append([]int{}, v.f.Keys...) }
+func (v *VerifFieldsCBOR) ToCBOR(em cbor.EncMode) ([]byte, error) {
+	return v.f.ToCBOR(em)
+}
+func (v *VerifFieldsCBOR) FromCBOR(dm cbor.DecMode, data []byte) error {
+	return v.f.FromCBOR(dm, data)
+}
+
+// VerifFieldsJSON wraps structFieldsJSON.
+type VerifFieldsJSON struct{ f *structFieldsJSON }
+
+func VerifNewFieldsJSON() *VerifFieldsJSON { return &VerifFieldsJSON{newStructFieldsJSON()} }
+
+func (v *VerifFieldsJSON) Add(key string, val []byte) error { return v.f.Add(key, json.RawMessage(val)) }
+func (v *VerifFieldsJSON) Has(key string) bool              { return v.f.Has(key) }
+func (v *VerifFieldsJSON) Get(key string) ([]byte, bool)    { r, ok := v.f.Get(key); return []byte(r), ok }
+func (v *VerifFieldsJSON) Delete(key string)                { v.f.Delete(key) }
+func (v *VerifFieldsJSON) Keys() []string                   { return append([]string{}, v.f.Keys...) }
+func (v *VerifFieldsJSON) ToJSON() ([]byte, error)          { return v.f.ToJSON() }
+func (v *VerifFieldsJSON) FromJSON(data []byte) error       { return v.f.FromJSON(data) }
+
+// VerifProcessAdditionalInfo wraps processAdditionalInfo.
+func VerifProcessAdditionalInfo(ai byte, data []byte) (int, []byte, error) {
+	return processAdditionalInfo(ai, data)
+}
